@@ -42,7 +42,7 @@ def short(k):
     return k.replace("crate::", "")
 
 
-def run(ctx, spec, floor, config="all", label=""):
+def run(ctx, spec, floor, config="all", label="", own_only=False):
     rep = Report("R-TOTAL", "every entry point that promises to be total (checked_/overflowing_/saturating_/wrapping_ "
                  "forms, try_from_*, decoders, parsers) reaches no panic site that is not discharged by a dominating "
                  "guard (interval / relational / non-zero / callee-guard refutation) in every evaluated (BITS, LIMBS) "
@@ -59,6 +59,8 @@ def run(ctx, spec, floor, config="all", label=""):
         per_site = {}
         for cfg in (cfgs if generic else [None]):
             for r in T.residuals(e, cfg):
+                if own_only and not (r.origin_fn == e or r.origin_fn.startswith(e + "::{closure")):
+                    continue
                 d = per_site.setdefault(r.site_key(), {"cfgs": [], "r": r})
                 if cfg not in d["cfgs"]:
                     d["cfgs"].append(cfg)
